@@ -6,6 +6,7 @@ package h
 // the lock-free yield points (the trailer-publication window).
 
 import (
+	"context"
 	"fmt"
 	"math/rand"
 	"time"
@@ -290,5 +291,95 @@ func famNonUTF8(w *World, c *Case, rng *rand.Rand) {
 		w.Violate("C03", "tunnel-killed-by-unencodable-metadata:"+pos, "an RPC carrying a non-UTF-8 metadata value (%s position) ended the tunnel / failed the bystander RPC (tunnel err: %v)", pos, w.TCh.Err())
 	}
 	w.Stat("nonutf8_probes", 1)
+	w.Finish()
+}
+
+// ---- header timing: "headers are available no later than the first response message" ----
+
+func init() {
+	families["hdrtiming"] = famHdrTiming
+	prev := listers["C02"]
+	listers["C02"] = func(tier string, seed int64) []Case {
+		out := prev(tier, seed)
+		rng := rand.New(rand.NewSource(seed*104723 + 22))
+		reps := 1
+		if tier == "thorough" {
+			reps = 40
+		}
+		for r := 0; r < reps; r++ {
+			for _, dir := range allDirs {
+				for _, fc := range []bool{true, false} {
+					for hv := 0; hv < 5; hv++ {
+						for _, shape := range []string{"ServerStream", "Bidi"} {
+							cfg := WorldCfg{Dir: dir}
+							if !fc {
+								cfg.ClientNoFC, cfg.ServerNoFC = true, true
+							}
+							out = append(out, Case{Family: "hdrtiming", Seed: rng.Int63(), Cfg: cfg, P: map[string]int{"hv": hv}, S: map[string]string{"shape": shape}})
+						}
+					}
+				}
+			}
+		}
+		return out
+	}
+}
+
+// famHdrTiming: the handler sends one message and then waits; the caller
+// receives it and calls Header(): the call must return at once (the handler is
+// still running), with exactly what the handler set - including nothing at all.
+func famHdrTiming(w *World, c *Case, rng *rand.Rand) {
+	if err := w.Open(nil); err != nil {
+		w.Violate("C11", "open-failed", "open: %v", err)
+		w.Finish()
+		return
+	}
+	hv, shape := c.p("hv", 0), c.s("shape", "ServerStream")
+	w.SigExtra = fmt.Sprintf("%s/%d", shape, hv)
+	var pre []Op
+	var want metadata.MD
+	switch hv {
+	case 0: // no header call at all
+	case 1:
+		pre = []Op{{K: "sethdr", MD: metadata.MD{}}}
+	case 2:
+		want = metadata.MD{"h": {"1", "2"}}
+		pre = []Op{{K: "sethdr", MD: want}}
+	case 3:
+		want = metadata.MD{"h": {"1"}, "g-bin": {"x"}}
+		pre = []Op{{K: "sethdr", MD: metadata.MD{"h": {"1"}}, Name: "ctx"}, {K: "sethdr", MD: metadata.MD{"g-bin": {"x"}}}}
+	case 4:
+		pre = []Op{{K: "sendhdr"}}
+	}
+	s := &RPCSpec{ID: "ht", Method: shape}
+	s.Handler = append([]Op{{K: "recv"}}, pre...)
+	s.Handler = append(s.Handler, Op{K: "send", N: genSize(rng, 70000)}, Op{K: "sync", Name: "finish"}, Op{K: "send", N: 5}, Op{K: "settrl", MD: metadata.MD{"t": {"z"}}}, Op{K: "ret"})
+	s.Client = []Op{{K: "open"}, {K: "send", N: 10}}
+	if shape == "ServerStream" {
+		s.Client = append(s.Client, Op{K: "close"})
+	}
+	s.Client = append(s.Client, Op{K: "recv"}, Op{K: "header"}, Op{K: "signal", Name: "got-header"}, Op{K: "sync", Name: "finish"}, Op{K: "recvall"}, Op{K: "header"}, Op{K: "trailer"})
+	w.Env.StartRPC(context.Background(), w.Ch, s)
+	w.Advance(10 * time.Millisecond)
+	w.Stat("hdrtiming_runs", 1)
+	for _, r := range w.Env.Log.OpenOps() {
+		if r.RPC == "ht" && r.Side == "client" && r.K == "header" {
+			w.Violate("C02", "headers-not-available-with-first-message", "%s handler variant %d (%s): the caller has received the first response message but Header() is still blocked (the handler is still running)", shape, hv, w.Cfg)
+		}
+	}
+	for _, r := range w.Env.Log.Records() {
+		if r.RPC == "ht" && r.Side == "client" && r.K == "header" && r.RetSeq != 0 && r.Err == "" {
+			if d := mdDiff(want, r.MD); d != "" {
+				w.Violate("C02", "wrong-headers", "%s handler variant %d: Header() after the first message returned %s, handler set %s (%s)", shape, hv, mdString(r.MD), mdString(want), d)
+			}
+		}
+	}
+	w.Env.Signal("finish")
+	w.Advance(time.Second)
+	for _, r := range w.Env.Log.OpenOps() {
+		w.Violate("C05", "op-stuck-in-clean-run", "operation %s %s of rpc %s still blocked", r.Side, r.K, r.RPC)
+	}
+	w.CheckDelivery()
+	w.CheckOutcome()
 	w.Finish()
 }
